@@ -297,10 +297,11 @@ def embedNames : Tree → List String
 def reservedNames : List String := ["ShootMap", "ShootNew", "Mapper"]
 
 /-- every exported field name selects exactly one leaf or is hidden by a shallower FIELD (not by an
-    embedded type name, not ambiguous), and no field is called like an embedded type or a generated method -/
+    embedded type name, not ambiguous: `goResolve` counts embedded type names as members), and no field is called like a
+    generated method. A field may be called like an embedded type that lies deeper -/
 def wfSelectors (t : Tree) : Bool :=
   (leavesOf t).all (fun l =>
-    (goResolve t l.decl.name).isSome && !(embedNames t).contains l.decl.name && !reservedNames.contains l.decl.name)
+    (goResolve t l.decl.name).isSome && !reservedNames.contains l.decl.name)
 
 def noUnderscore (n : String) : Bool := !n.toList.contains '_'
 
@@ -480,18 +481,13 @@ def pathAgrees (tree : Tree) (f : Field) : Bool :=
   | some l => l.path == f.path
   | none => false
 
-/-- no promoted field is called like an embedded pointer type (else `CoveredBy`'s suffix test fires by accident) -/
-def suffixFree (pp : List (List String)) (fields : List Field) : Bool :=
-  fields.all (fun f => pp.all (fun p => !coveredBy f p || f.path == p || (p.isPrefixOf f.path && p.length < f.path.length)))
-
 /-- C09 is asserted where: plain exported structs (C05's pairs), the mapper type not embedded by
-    pointer (or unused), every emitted selector resolves to the field the generator means, and no
-    promoted field is named like an embedded pointer type. No clause about the emitted tables. -/
+    pointer (or unused), every emitted selector resolves to the field the generator means.
+    No clause about the emitted tables, none about names. -/
 def WF09 (inp : Input) : Bool :=
   let p := plan inp
   !inp.srcNew && !inp.destNew &&
   (inp.mapperPtr != some true || (!hasFunc p.toStmts && !hasFunc p.fromStmts)) &&
-  suffixFree inp.destSem.ptrs p.destFields && suffixFree inp.srcSem.ptrs p.srcFields &&
   p.toStmts.all (fun c => pathAgrees inp.src c.rd && pathAgrees inp.dest c.wr) &&
   p.fromStmts.all (fun c => pathAgrees inp.dest c.rd && pathAgrees inp.src c.wr)
 
